@@ -144,6 +144,10 @@ pub struct RxPlan {
     /// (index of the reception in this receiver's wire order, extra delay):
     /// the network stalls; everything from that frame on arrives later
     pub stalls: Vec<(u32, u64)>,
+    /// Some(offset): a receiver with a GNSS clock; its 48-bit timestamps carry the
+    /// time of day (+ this offset, ns); None: a free-running counter
+    #[serde(default)]
+    pub gnss_offset_ns: Option<i64>,
 }
 
 #[derive(Clone, Debug, Serialize, Deserialize)]
@@ -205,7 +209,10 @@ fn frame_of(plan: &PipelinePlan, tx: &Tx) -> Option<(Vec<u8>, Option<world::Trut
         4 => (world::df4(ac.icao, 0, truth.alt as i32), None),
         5 => (world::df5(ac.icao, 0, ac.squawk), None),
         6 => {
-            let c = c12::CORPUS[tx.sel as usize % c12::CORPUS.len()];
+            // (not the position report of the corpus: a position that is not the
+            // aircraft's own would be a lie of the world, not a fault of the system)
+            let c = c12::CORPUS[tx.sel as usize % (c12::CORPUS.len() - 1)];
+            debug_assert!(c12::CORPUS[c12::CORPUS.len() - 1].starts_with("8c4841753a9a"));
             (world::readdress(&world::unhex(c), ac.icao)?, None)
         }
         7 => (vec![0x20 | (tx.sel & 0x0f), tx.sel.wrapping_mul(37)], None),
@@ -213,13 +220,33 @@ fn frame_of(plan: &PipelinePlan, tx: &Tx) -> Option<(Vec<u8>, Option<world::Trut
     })
 }
 
-fn beast_frame(id: u32, payload: &[u8]) -> Vec<u8> {
+/// the reception id travels in the low 20 bits of the 48-bit receiver timestamp
+const ID_BITS: u64 = 20;
+const ID_MASK: u64 = (1 << ID_BITS) - 1;
+
+fn id_of(md: &SensorMetadata) -> u32 {
+    md.nanoseconds.map(|n| (n & ID_MASK) as u32).unwrap_or(u32::MAX)
+}
+
+/// 48-bit timestamp of a receiver: seconds of the day << 30 | nanoseconds for a
+/// GNSS receiver (radarcape format), an implausible day second for a counter
+fn mlat_of(id: u32, gnss: Option<i64>, t_rx_ns: u64) -> u64 {
+    match gnss {
+        Some(off) => {
+            let t = (t_rx_ns as i128 + off as i128).rem_euclid(86_400_000_000_000) as u64;
+            let (sec, nanos) = (t / 1_000_000_000, t % 1_000_000_000);
+            (sec << 30) | (nanos & !ID_MASK & 0x3FFF_FFFF) | (id as u64 & ID_MASK)
+        }
+        None => (0x3_FFFFu64 << 30) | (id as u64 & ID_MASK),
+    }
+}
+
+fn beast_frame(id: u32, mlat: u64, payload: &[u8]) -> Vec<u8> {
     let ty = match payload.len() {
         2 => 0x31u8,
         7 => 0x32,
         _ => 0x33,
     };
-    let mlat = id as u64 + 1;
     let mut f = vec![0x1a, ty];
     f.extend_from_slice(&mlat.to_be_bytes()[2..8]);
     f.push((id as u8).wrapping_mul(31) | 1); // signal level, never 0xff... (odd: 0xff possible; harmless)
@@ -314,6 +341,7 @@ impl Scenario for Pipeline {
                 style: *rng.pick(&[0u8, 0, 1, 1, 1, 2, 3, 4, 4, 4]),
                 cut_seed: rng.next_u64(),
                 stalls: Vec::new(),
+                gnss_offset_ns: if rng.chance(0.5) { Some(*rng.pick(&[0i64, 0, 1_000_000, -2_000_000_000, 13_000_000_000, -17_000_000_000, 600_000_000_000])) } else { None },
             });
             latency.push(rng.range(0, 300_000_000));
             hear.push(*rng.pick(&[1.0, 0.9, 0.7, 0.5]));
@@ -349,7 +377,7 @@ impl Scenario for Pipeline {
         let window_ms = *rng.pick(&[450u32, 450, 450, 50, 0, 1000]);
         let t_flush_ns = t_end + 3_000_000_000 + window_ms as u64 * 1_000_000;
         let max_stall: u64 = receivers.iter().map(|r| r.stalls.iter().map(|s| s.1).sum::<u64>()).max().unwrap_or(0);
-        let session_end_ns = t_flush_ns + max_stall + n_rx as u64 * 700_000_000 + window_ms as u64 * 1_000_000 + 3_000_000_000;
+        let session_end_ns = t_flush_ns + max_stall + n_rx as u64 * 700_000_000 + window_ms as u64 * 1_000_000 + 7_000_000_000;
         // terminal session over the same span
         let with_tui = rng.chance(0.7);
         let mut events: Vec<c17::TimedEv> = Vec::new();
@@ -392,7 +420,7 @@ impl Scenario for Pipeline {
         let mut holds = Vec::new();
         if rng.chance(0.4) {
             for _ in 0..rng.usize(1, 4) {
-                holds.push((rng.below(t_flush_ns), *rng.pick(&[1_000u64, 1_000_000, 100_000_000, 800_000_000])));
+                holds.push((rng.below(t_flush_ns), *rng.pick(&[1_000u64, 1_000_000, 100_000_000, 800_000_000, 1_600_000_000, 3_000_000_000])));
             }
             holds.sort();
         }
@@ -627,6 +655,8 @@ struct Shared {
     /// (serial, reception id, frame, system stamp) in the order in which the tap
     /// received them
     tapped: Vec<(u64, u32, Vec<u8>, f64)>,
+    /// reception id -> (simulated instant at which the tap saw it, wall-clock offset then)
+    tap_time: HashMap<u32, (u64, i64)>,
     /// records in the order in which update_snapshot completed (post-decode)
     done: Vec<TimedMessage>,
     shadow_tables: Vec<String>,
@@ -634,7 +664,7 @@ struct Shared {
     main_loop_ended: bool,
 }
 
-const FLUSH_BASE: u32 = 0xFFFF_FF00;
+const FLUSH_BASE: u32 = 0xF_FF00;
 
 pub fn execute(plan: &PipelinePlan, prop: &'static str) -> Outcome<PipelinePlan> {
     let mut out = Outcome::new();
@@ -712,7 +742,7 @@ pub fn execute(plan: &PipelinePlan, prop: &'static str) -> Outcome<PipelinePlan>
             let inf = info.get_mut(id).unwrap();
             inf.arrive_ns = at;
             inf.wire_pos = k;
-            let bf = beast_frame(*id, &inf.frame);
+            let bf = beast_frame(*id, mlat_of(*id, rp.gnss_offset_ns, plan.txs[inf.tx].t_ns), &inf.frame);
             if bf[2..8].contains(&0x1a) {
                 out.count("escaped_1a_in_mlat", 1);
             }
@@ -723,8 +753,8 @@ pub fn execute(plan: &PipelinePlan, prop: &'static str) -> Outcome<PipelinePlan>
         // pushes it out of the 23-byte look-ahead (and stays pending itself)
         let t_flush = plan.t_flush_ns.max(last_at) + j as u64 * 700_000_000;
         let flush_id = FLUSH_BASE + j as u32;
-        wire.extend_from_slice(&escape(&beast_frame(flush_id, &world::df11(0xFF_FFF0 + j as u32, 7))));
-        wire.extend_from_slice(&escape(&beast_frame(flush_id + 0x40, &[0x21, 0x43])));
+        wire.extend_from_slice(&escape(&beast_frame(flush_id, mlat_of(flush_id, None, 0), &world::df11(0xFF_FFF0 + j as u32, 7))));
+        wire.extend_from_slice(&escape(&beast_frame(flush_id + 0x40, mlat_of(flush_id + 0x40, None, 0), &[0x21, 0x43])));
         frame_ends.push((t_flush, wire.len()));
         // chunking
         let mut crng = Rng::new(rp.cut_seed);
@@ -791,8 +821,8 @@ pub fn execute(plan: &PipelinePlan, prop: &'static str) -> Outcome<PipelinePlan>
             // second stage, on the first receiver only, always in a chunk of its
             // own: whatever the chunking delayed until the first flush (and was
             // therefore stamped at that instant) has its window closed by this one
-            wire.extend_from_slice(&escape(&beast_frame(flush_id + 0x80, &world::df11(0xFF_FFE0, 7))));
-            wire.extend_from_slice(&escape(&beast_frame(flush_id + 0xC0, &[0x21, 0x44])));
+            wire.extend_from_slice(&escape(&beast_frame(flush_id + 0x80, mlat_of(flush_id + 0x80, None, 0), &world::df11(0xFF_FFE0, 7))));
+            wire.extend_from_slice(&escape(&beast_frame(flush_id + 0xC0, mlat_of(flush_id + 0xC0, None, 0), &[0x21, 0x44])));
             chunks.push((flush2_ns.max(m), wire.len()));
         }
         let reads = Arc::new(std::sync::Mutex::new((0u64, 0u64, 0u64)));
@@ -806,6 +836,7 @@ pub fn execute(plan: &PipelinePlan, prop: &'static str) -> Outcome<PipelinePlan>
     let (tx_dedup, rx_dedup) = tokio::sync::mpsc::channel::<TimedMessage>(cap);
     let shared = Rc::new(RefCell::new(Shared {
         tapped: Vec::new(),
+        tap_time: HashMap::new(),
         done: Vec::new(),
         shadow_tables: Vec::new(),
         observations: Vec::new(),
@@ -832,10 +863,12 @@ pub fn execute(plan: &PipelinePlan, prop: &'static str) -> Outcome<PipelinePlan>
         sim.spawn("tap(stub)", async move {
             while let Some(m) = rx_in.recv().await {
                 if let Some(md) = m.metadata.first() {
-                    let id = md.nanoseconds.map(|n| (n as u32).wrapping_sub(1)).unwrap_or(u32::MAX);
+                    let id = id_of(md);
                     exec::log_u64(0x7A00_0000_0000 | id as u64);
                     exec::trace(|| format!("tap: serial={} id={} frame={} stamp={:.6}", md.serial, id, world::hex(&m.frame), m.timestamp - exec::EPOCH_S as f64));
-                    sh.borrow_mut().tapped.push((md.serial, id, m.frame.clone(), m.timestamp));
+                    let mut shm = sh.borrow_mut();
+                    shm.tapped.push((md.serial, id, m.frame.clone(), m.timestamp));
+                    shm.tap_time.insert(id, (exec::now_ns(), exec::wall_offset_ns()));
                 }
                 if tx_tap.capacity() == 0 {
                     *bp.borrow_mut() += 1;
@@ -1030,7 +1063,7 @@ pub fn execute(plan: &PipelinePlan, prop: &'static str) -> Outcome<PipelinePlan>
     let tap_pos: HashMap<u32, usize> = sh.tapped.iter().enumerate().map(|(i, t)| (t.1, i)).collect();
     let mut multi_rx_records = 0u64;
     for (k, m) in sh.done.iter().enumerate() {
-        let ids: Vec<u32> = m.metadata.iter().map(|md| md.nanoseconds.map(|n| (n as u32).wrapping_sub(1)).unwrap_or(u32::MAX)).collect();
+        let ids: Vec<u32> = m.metadata.iter().map(id_of).collect();
         if ids.is_empty() {
             viols.push(Violation::new("c10.1-conservation", "empty-record", format!("pipeline: record #{} carries no reception", k)));
             continue;
@@ -1129,20 +1162,33 @@ pub fn execute(plan: &PipelinePlan, prop: &'static str) -> Outcome<PipelinePlan>
         // the property's "locally swapped timestamps".
         let mut clean: HashMap<u32, (bool, f64)> = HashMap::new(); // icao -> (session clean, last stamp)
         for (k, m) in sh.done.iter().enumerate() {
-            let Some(id) = m.metadata.first().and_then(|md| md.nanoseconds).map(|n| (n as u32).wrapping_sub(1)) else { continue };
+            let Some(id) = m.metadata.first().map(id_of) else { continue };
             let Some(inf) = info.get(&id) else { continue };
             let txp = &plan.txs[inf.tx];
             if txp.kind != 0 || inf.flipped {
                 continue;
             }
             let icao = plan.aircraft[txp.ac as usize % plan.aircraft.len()].icao;
-            let skew = (m.timestamp - epoch) - txp.t_ns as f64 * 1e-9;
+            // delay between encoding and hand-over, measured by the harness at the
+            // tap (not read from the stamp the code under test put on the record:
+            // a wrong stamp is the system's doing and its consequences are judged);
+            // a wall-clock step in effect counts as a timing fault of its own.
+            // Without the tap the stamp is all there is.
+            let timing_ok = match sh.tap_time.get(&id) {
+                Some((t_tap, off)) => *off == 0 && t_tap.saturating_sub(txp.t_ns) <= 3_000_000_000,
+                None => {
+                    let skew = (m.timestamp - epoch) - txp.t_ns as f64 * 1e-9;
+                    skew >= -0.001 && skew <= 3.0
+                }
+            };
+            // sessions are delimited on the time line the decoder sees (its state
+            // is aged with the stamps of the records)
             let e = clean.entry(icao).or_insert((true, m.timestamp));
             if m.timestamp - e.1 >= 180.0 {
                 e.0 = true;
             }
             e.1 = e.1.max(m.timestamp);
-            if !(skew >= -0.001 && skew <= 3.0) {
+            if !timing_ok {
                 e.0 = false;
             }
             let session_clean = e.0;
